@@ -139,7 +139,7 @@ def cases(tier, seed):
             for opts in range(16):
                 for ftype in (R.RREQ, R.RRESP, R.WREQ, R.WRESP, R.META, 4, 14):
                     for n in (0, 1, 2, 3):
-                        for variant in ("good", "badhd", "badpl", "badpl0", "goodpl0", "len+1", "len-1"):
+                        for variant in ("good", "badhd", "badpl", "badpl0", "goodpl0", "len+1", "len-1", "wrap31", "wrap32"):
                             u = 2 if opts & 1 else 1
                             pl = R.rbytes(rnd, n * u, special=False)
                             meta = 0 if ftype in (R.RREQ, R.WREQ) else (rnd.choice([1, 2]) if ftype == R.META else rnd.randint(0, 11))
@@ -154,6 +154,12 @@ def cases(tier, seed):
                             if variant == "goodpl0" and len(pl) > 2:   # payload whose true checksum is 0000
                                 c0 = R.crc16(pl[:-2])
                                 pl = pl[:-2] + [c0 & 0xff, c0 >> 8]
+                            # block sizes whose octet count does not fit 32 bits: the payload that is present is far shorter
+                            # than announced, whatever a 32-bit product says
+                            if variant == "wrap31":
+                                size = 0x80000000 + n
+                            elif variant == "wrap32":
+                                size = rnd.choice([0xffffffff, 0xfffffffe, 0x7fffffff, 0x40000000 + n, 0xc0000000 + n])
                             if variant == "len+1":
                                 pl = pl + [rnd.getrandbits(8)]
                             elif variant == "len-1":
